@@ -20,11 +20,11 @@ def run(ctx):
     f_open = repo.func('Plugin.open_connection')
     f_close = repo.func('Plugin.close_connection')
     # ---- C15.1 -----------------------------------------------------------------------------------------------
-    keysafe.check(ctx, 'C15.1', f_pm, {'self.connections'}, inline=[f_open], floor=1)
+    keysafe.check(ctx, 'C15.1', f_pm, {'self.connections'}, inline=[f_open])
     r = keysafe.check(ctx, 'C15.1', f_close, {'self.connections'})
     keysafe.check(ctx, 'C15.1', repo.func('ConnectionManager.close_connection'), {'self.open_connections'})
     keysafe.check(ctx, 'C15.1', repo.func('ConnectionImpl.create_object'), {'self.db'})
-    keysafe.check(ctx, 'C15.1', repo.func('ConnectionImpl.retrieve_object'), {'self.db'}, floor=1)
+    keysafe.check(ctx, 'C15.1', repo.func('ConnectionImpl.retrieve_object'), {'self.db'})
     # ---- C15.2 -----------------------------------------------------------------------------------------------
     paths = paths_of(repo, f_pm)
 
